@@ -132,7 +132,24 @@ ROUND3_NOTES = {
 
 
 # round 4 (G/H): same protocol as round 3 (frozen copy at bcd381e); notes filled in after the first trial
-ROUND4_NOTES = {}
+ROUND4_NOTES = {
+    "C01-H": "c01's grid gained escapes in every pairing (high / low / non-surrogate) inside JSON / YAML strings and Jsonnet literals, blanks around JSON tokens, and every code point up to U+00A1 through the escaping functions",
+    "C02-G": "the +: cell of the operand matrix is the full product (inherited value x added value), as a fixed, a computed and a comprehension field",
+    "C02-H": "17 shadowing templates: an inner binder of the same name for every pair of binder kinds (later for of one comprehension, nested comprehension, object local, parameter, method parameter, ...)",
+    "C04-H": "c04's CLI leg: code given with --tla-code / --ext-code (text or file) is evaluated only as far as the result needs it, and once",
+    "C05-H": "c05's CLI leg gained -m -y (several files x several documents, also none)",
+    "C08-G": "all pairs of 45 containers that differ (or, for 0 / -0, do not differ) in exactly one position - first, middle, last, nested - compared repeatedly in one program",
+    "C08-H": "documented parameter names of 61 std functions (driver/stdparams.py): every argument bound by name, reversed and positional-then-named, equals the positional call",
+    "C10-G": "recursion through the callback of 22 higher-order builtins / constructs, for the first and for the last element",
+    "C12-H": "objects built by a construction history (genrmkey: hidden below, default above, +:, removed keys) under -m against the layer-deletion model",
+    "C13-G": "files of 4 KiB .. 128 KiB with a multi-byte or truncated sequence straddling the power-of-two boundary through importstr / importbin / import",
+    "C13-H": "the same failing path imported at four sites of one file of which only the k-th is evaluated: the error must point at that site",
+    "C16-G": "end-of-input matrix: 30 prefixes that leave a lexical construct open x 14 invalid / truncated UTF-8 tails x 7 closers",
+    "C16-H": "several distinct sources under one display path (also '<stdlib>') rendered by one Session: each diagnostic must quote and locate its own source",
+    "C18-G": "periodic subjects and patterns (a unit repeated with a proper border, so that occurrences overlap at every shift)",
+    "C19-G": "flag subsets in canonical, reversed and random order; random cases also repeat flags",
+    "C20-H": "escapeStringJson / escapeStringPython compared with upstream's exact definition for every code point up to U+00A1 (was: round trip only)",
+}
 
 
 def needs(notes):
